@@ -410,6 +410,48 @@ def h_two_messages(ctx):
             ("second message carries its own quoted stanza id", val_eq(got2.extended_text.context_info.stanza_id, sid))]
 
 
+def _settable(cls):
+    import inspect
+    return sorted(n for n, m in inspect.getmembers(cls, lambda x: isinstance(x, property)) if m.fset is not None)
+
+
+def _fresh(cls):
+    """an object of an attribute class made through its constructor: required parameters get a marker string"""
+    import inspect
+    kw = {}
+    for n, prm in list(inspect.signature(cls.__init__).parameters.items())[1:]:
+        if prm.default is inspect.Parameter.empty and prm.kind in (prm.POSITIONAL_OR_KEYWORD, prm.KEYWORD_ONLY):
+            kw[n] = "init-" + n
+    return cls(**kw)
+
+
+def h_setters(ctx, key):
+    """content composed by editing an object after it was made (text first, preview filled in afterwards): setting one field
+    changes that field, to the value given, and no other field"""
+    cls = attr_mods()[key]
+    props = _settable(cls)
+    if not props:
+        return [("the class has no settable fields (nothing to edit)", True)]
+    name = ctx.choice("field", props)
+    earlier = ctx.choice("field_set_before", ["none"] + props)
+    try:
+        obj = _fresh(cls)
+        if earlier != "none":
+            setattr(obj, earlier, "first-" + earlier)
+    except AssertionError:
+        return [("the class (or the field set first) demands a typed value: a marker string is refused (outside this case)", True)]
+    before = {p: getattr(obj, p) for p in props}
+    value = "edited-" + name
+    try:
+        setattr(obj, name, value)
+    except AssertionError:
+        return [("the field demands a typed value: a marker string is refused (outside this case)", True)]
+    after = {p: getattr(obj, p) for p in props}
+    changed = sorted(p for p in props if p != name and not (after[p] is before[p] or after[p] == before[p]))
+    return [("%s.%s reads back as the value set (got %r)" % (cls.__name__, name, after[name]), after[name] == value),
+            ("setting %s.%s leaves the other fields as they were (changed: %s)" % (cls.__name__, name, changed), not changed)]
+
+
 def h_entity_reserialise(ctx, kind):
     """entity level (protomessage.py): the application changes the content of an entity it has already serialised once
     (forwarding a received message with a new text, a retry with an edited caption): the next stanza carries the new content"""
@@ -512,6 +554,7 @@ def cases(tier):
     cs = [dict(name="stub-vs-real-protobuf", fn=h_stub_vs_real)]
     cs += [dict(name="entity[%s,changed after first serialisation]" % k, fn=h_entity_reserialise, args=(k,)) for k in ("text", "extended_text")]
     cs.append(dict(name="two-messages[mention added in place, then a fresh message]", fn=h_two_messages))
+    cs += [dict(name="edited-after-construction[%s]" % k, fn=h_setters, args=(k,)) for k in sorted(attr_mods())]
     cs.append(dict(name="two-replies[same quoted stanza id, different quotes]", fn=h_two_quotes))
     for kind in ("image", "video"):
         for quoted in (False, True):
